@@ -579,6 +579,21 @@ func readDeclared(r io.Reader, n int) ([]byte, error) {
 	return buf, nil
 }
 
+// isDecodedType reports whether t is one of the types the decoder itself puts into an empty interface. A
+// value of such a type in an `any` receiver is what an earlier Decode left there, not a template chosen by
+// the caller: the next document replaces it whatever its type (other values, e.g. a struct held in an
+// interface, still say which type to decode into).
+func isDecodedType(t reflect.Type) bool {
+	switch t {
+	case reflect.TypeOf(int8(0)), reflect.TypeOf(int16(0)), reflect.TypeOf(int32(0)), reflect.TypeOf(int64(0)),
+		reflect.TypeOf(float32(0)), reflect.TypeOf(float64(0)), reflect.TypeOf(""),
+		reflect.TypeOf([]byte(nil)), reflect.TypeOf([]int32(nil)), reflect.TypeOf([]int64(nil)),
+		reflect.TypeOf([]any(nil)), reflect.TypeOf(map[string]any(nil)):
+		return true
+	}
+	return false
+}
+
 func indirect(v reflect.Value, decodingNull bool) (Unmarshaler, encoding.TextUnmarshaler, reflect.Value, func()) {
 	v0 := v
 	haveAddr := false
@@ -601,7 +616,7 @@ func indirect(v reflect.Value, decodingNull bool) (Unmarshaler, encoding.TextUnm
 				haveAddr = false
 				v = e
 				continue
-			} else if v.CanSet() {
+			} else if v.CanSet() && !(v.NumMethod() == 0 && isDecodedType(e.Type())) {
 				e = reflect.New(e.Type())
 				cv := v
 				assign = func() { cv.Set(e.Elem()) }
